@@ -143,4 +143,64 @@ Qed.
 Theorem lbfgs_bounded_invalid fuel ls k x m1 inf : valid_bounds O lo hi x = false ->
   let r := lbfgs_bounded O cost grad norm2 osqrt isfinite ofz fuel ls k lo hi x m1 inf in r_status r = MInvalidBounds /\ r_log r = [] /\ r_x r = x.
 Proof. intros Hv. unfold lbfgs_bounded. rewrite Hv. cbn. repeat split. Qed.
+
+(* ================= unbounded L-BFGS: reported cost and iteration count ================= *)
+Definition buinv (q : lb_state (T:=T)) : Prop := 0 <= b_it q /\ (1 <= b_utd q -> b_cost q = cost (b_x q)).
+Notation upost := (MinimCGProofs.upost cost).
+Definition bustep_post (s : cgsettings (T:=T)) (it : Z) (r : result (T:=T) + lb_state (T:=T)) : Prop :=
+  match r with inl r => upost s it r | inr q' => buinv q' /\ b_it q' = it + 1 /\ b_it q' < g_max_it s end.
+Lemma lbu_finish_post s st q it0 : b_cost q = cost (b_x q) -> it0 <= b_it q -> (it0 < g_max_it s -> b_it q <= g_max_it s) -> upost s it0 (lb_finish cost s st q).
+Proof.
+  intros Hc Hi1 Hi2. unfold lb_finish, cg_refresh.
+  destruct (b_utd q <? g_ensure s); [destruct (0 <? g_ensure s)|]; unfold MinimCGProofs.upost; cbn; (refine (conj (fun _ => _) (conj Hi1 Hi2)); first [reflexivity|exact Hc]).
+Qed.
+Lemma lbu_step_spec ls k q : buinv q -> bustep_post (lb_cg ls) (b_it q) (lbu_step O cost grad norm2 osqrt isfinite ofz ls k q).
+Proof.
+  intros (Hit & Hc). unfold lbu_step.
+  set (need := b_utd q <? 1).
+  set (cf := if need then cost (b_x q) else b_cost q).
+  assert (Hcf : cf = cost (b_x q)).
+  { unfold cf, need. destruct (Z.ltb_spec (b_utd q) 1) as [_|E]; [reflexivity|apply Hc; exact E]. }
+  set (g := if need then grad (b_x q) else b_gradient q).
+  set (q1 := if need then _ else q).
+  assert (H1 : b_x q1 = b_x q /\ b_it q1 = b_it q /\ (need = true -> b_cost q1 = cf)).
+  { unfold q1. destruct need; cbn; repeat split; try reflexivity; discriminate. }
+  destruct H1 as (H1x & H1i & H1c).
+  assert (Hq1c : b_cost q1 = cost (b_x q1)).
+  { rewrite H1x. destruct need eqn:En; [rewrite (H1c eq_refl); exact Hcf|]. unfold q1. unfold cf in Hcf. exact Hcf. }
+  destruct (negb (isfinite cf)); [cbn [bustep_post]; apply lbu_finish_post; [exact Hq1c|lia|lia]|].
+  destruct (any_nonfinite isfinite g); [cbn [bustep_post]; apply lbu_finish_post; [exact Hq1c|lia|lia]|].
+  destruct (oleb O (norm2 g) (g_thr (lb_cg ls))); [cbn [bustep_post]; apply lbu_finish_post; cbn; [rewrite H1x; exact Hcf|lia|lia]|].
+  cbn [b_x b_it b_step b_utd b_samples b_prev_x b_prev_g b_data b_start].
+  match goal with |- context [let '(d2, dir) := ?p in _] => destruct p as [d2 dir] end.
+  match goal with |- context [line_search O cost grad norm2 osqrt isfinite (lb_cg ls) k None (b_x q1) dir ?st ?cv ?bs cf g ?u ?sm []] =>
+    set (o := line_search O cost grad norm2 osqrt isfinite (lb_cg ls) k None (b_x q1) dir st cv bs cf g u sm []);
+    assert (Ho : post cost (fun _ : list T => True) o) by
+      (apply (line_search_spec O cost grad norm2 osqrt isfinite le_total lt_le (lb_cg ls) k None (b_x q1) dir st cv bs cf (fun _ => True)); [exact I|intros; exact I|rewrite H1x; exact Hcf|constructor]) end.
+  destruct Ho as (_ & _ & Ho3).
+  set (it' := b_it q1 + 1).
+  match goal with |- bustep_post _ _ (match ?st' with MNotYetConverged => inr ?q3 | _ => _ end) => set (q3' := q3); set (stf := st') end.
+  assert (Hfin : forall st'', upost (lb_cg ls) (b_it q) (lb_finish cost (lb_cg ls) st'' q3')).
+  { intros st''. apply lbu_finish_post; cbn; [exact Ho3|unfold it'; lia|unfold it'; lia]. }
+  destruct stf eqn:Est'; cbn [bustep_post]; try apply Hfin.
+  unfold stf in Est'. match type of Est' with match ?st0 with _ => _ end = _ => destruct st0; try discriminate Est' end.
+  destruct (g_max_it (lb_cg ls) <=? it') eqn:Emax; try discriminate Est'. apply Z.leb_gt in Emax.
+  refine (conj _ (conj _ _)); [unfold buinv; cbn; split; [unfold it'; lia|intros _; exact Ho3]|cbn; unfold it'; lia|cbn; exact Emax].
+Qed.
+Theorem lbfgs_unbounded_spec fuel ls k x m1 inf :
+  let r := lbfgs_unbounded O cost grad norm2 osqrt isfinite ofz fuel ls k x m1 inf in
+  (r_status r <> MOutOfFuel -> r_cost r = cost (r_x r)) /\ (0 < g_max_it (lb_cg ls) -> 0 <= r_iter r <= g_max_it (lb_cg ls)).
+Proof.
+  intros r. unfold r, lbfgs_unbounded.
+  match goal with |- context [lbu_loop _ _ _ _ _ _ _ fuel ls k ?q0] => set (q00 := q0) end.
+  assert (H : forall fuel' q, buinv q -> upost (lb_cg ls) (b_it q) (lbu_loop O cost grad norm2 osqrt isfinite ofz fuel' ls k q)).
+  { intros fuel'. induction fuel' as [|fuel' IH]; intros q Hq.
+    - destruct Hq as (Hit & Hc). cbn. unfold MinimCGProofs.upost, lb_result; cbn. refine (conj _ (conj (Z.le_refl _) (fun H => Z.lt_le_incl _ _ H))). intros H; contradiction H; reflexivity.
+    - cbn [lbu_loop]. pose proof (lbu_step_spec ls k q Hq) as Hs.
+      destruct (lbu_step O cost grad norm2 osqrt isfinite ofz ls k q) as [r1|q']; [exact Hs|].
+      destruct Hs as (Hq' & Ei & Em). destruct (IH q' Hq') as (R3 & R4 & R5).
+      unfold MinimCGProofs.upost. refine (conj R3 (conj _ _)); [lia|intros _; apply R5; exact Em]. }
+  destruct (H fuel q00) as (R3 & R4 & R5); [unfold buinv, q00; cbn; split; [lia|intros E; lia]|].
+  cbn [b_it q00] in R4, R5. split; [exact R3|intros Hm; split; [exact R4|apply R5; exact Hm]].
+Qed.
 End MinimLBFGSProofs.
